@@ -78,12 +78,15 @@ CheckTls(c) ==
   /\ Verdict(id, "dof", c.res.dof = m - n)
 
 ObsCloseFit(a, b, rtol) ==
-  LET sc == RAdd(RAbs(a.value), "1/1000000000000") IN
+  LET sc == RAdd(RAbs(a.value), "1/1000000000000")
+      \* the fluctuations are compared on the scale of the largest fluctuation of the parameter on ANY chain: a chain the parameter does
+      \* not depend on carries rounding noise (1e-19), which two runs of a minimiser need not reproduce
+      dsc == FoldSeq(LAMBDA ch, acc : RMax(acc, RMaxAbsSeq(ch.d)), "0", b.chains) IN
   /\ RClose(a.value, b.value, rtol, RMul(rtol, sc))
   /\ Len(a.chains) = Len(b.chains)
   /\ \A k \in DOMAIN a.chains : k \in DOMAIN b.chains =>
         /\ a.chains[k].name = b.chains[k].name /\ a.chains[k].idl = b.chains[k].idl
-        /\ RCloseSeq(a.chains[k].d, b.chains[k].d, rtol, RMul(rtol, RMaxAbsSeq(b.chains[k].d)))
+        /\ RCloseSeq(a.chains[k].d, b.chains[k].d, rtol, RMul(rtol, dsc))
 \* two fits that must give the same parameters (as observables): permuted points / keys, TLS with negligible x errors vs ordinary fit
 CheckSame(c) ==
   IF c.a.k # "ok" \/ c.b.k # "ok" THEN Verdict(c.id, c.what \o ": a fit raised", FALSE)
